@@ -79,6 +79,12 @@ def check(an: Analysis) -> None:
     ob = an.ob("C17.1", "K3", "AsyncQueue._queue is mutated only by append/extend (right end) in enqueue, popleft (left end) in __anext__, and appendleft on the cancelled hand-off path of __anext__", [Q])
     ops = queue_ops(an)
     seen = set()
+    qcls = prog.cls(Q)
+    foreign = sorted({fi.cls.qualname for fi, _n, _op in ops if fi.cls is not None and fi.cls is not qcls and fi.cls.module is qcls.module and fi.cls.name.startswith("_")})
+    if foreign:
+        # the receive protocol was moved into a private helper object (a context manager, a waiter record): its methods
+        # would have to be read as part of __anext__, which the normaliser does not do for classes
+        raise AnalysisError(f"C17: the element buffer of AsyncQueue is handled by the private helper class(es) {foreign}; receive logic spread over a helper object is not modelled (unrecognised idiom)")
     for fi, n, op in ops:
         ob.inst(fi, n, op)
         seen.add((fi.name, op))
@@ -334,12 +340,51 @@ def check(an: Analysis) -> None:
         if not clears:
             ob.fail(nxt, None, "self._waiting is never cleared after a receive")
         else:
-            w = gn.must_pass(lambda n: n in clears, starts=[t for t, lab in aw.succ])
+            held = _restated_invariants(an, nxt, gn)
+            if held:
+                ob.inst(nxt, held[0].meta["assert"], "assertion restating `self._waiting is <the future this receive registered>`: cannot fail (only this function writes the attribute, behind the single-consumer guard)")
+            w = gn.must_pass(lambda n: n in clears, starts=[t for t, lab in aw.succ], skip_edge=lambda a_, b_, lab_: b_ in held)
             if w is not None:
                 ob.fail(nxt, clears[0].ast, "a path out of the wait leaves a stale self._waiting behind (next receive trips the single-consumer assert)", CFG.show_path(w))
 
 
 _SENTINEL = object()
+
+
+def _restated_invariants(an: Analysis, fi, g: CFG) -> list[Node]:
+    """assert-fail nodes of `assert self.A is <local>` that cannot be reached: the function stored that very local into
+    self.A on every path to the assertion, no other function of the class writes self.A, and a concurrent second
+    invocation of this function is stopped by its leading `assert self.A is None` before it writes."""
+    out: list[Node] = []
+    cls = fi.cls
+    if cls is None:
+        return out
+    for n in [n for n in g.nodes if n.kind == "assert-fail"]:
+        a = n.meta.get("assert")
+        t = a.test if a is not None else None
+        if not (isinstance(t, ast.Compare) and len(t.ops) == 1 and isinstance(t.ops[0], ast.Is)):
+            continue
+        sides = [t.left, t.comparators[0]]
+        attr = next((x for x in sides if isinstance(x, ast.Attribute) and is_name(x.value, "self")), None)
+        loc = next((x for x in sides if isinstance(x, ast.Name)), None)
+        if attr is None or loc is None:
+            continue
+        writers = {m.qualname for ms in cls.methods.values() for m in ms for x in m.own_nodes() if isinstance(x, ast.Attribute) and x.attr == attr.attr and isinstance(x.ctx, (ast.Store, ast.Del)) and m.name != "__init__"}
+        if writers - {fi.qualname}:
+            continue
+        first = next((st for st in fi.node.body if not (isinstance(st, ast.Expr) and isinstance(st.value, ast.Constant))), None)
+        guard = isinstance(first, ast.Assert) and isinstance(first.test, ast.Compare) and len(first.test.ops) == 1 and isinstance(first.test.ops[0], ast.Is) and dotted(first.test.left) == f"self.{attr.attr}" and isinstance(first.test.comparators[0], ast.Constant) and first.test.comparators[0].value is None
+        if not guard:
+            continue
+        if len([1 for x in fi.own_nodes() if isinstance(x, ast.Name) and x.id == loc.id and isinstance(x.ctx, ast.Store)]) != 1:
+            continue
+        stores = [m for m in g.nodes if m.kind == "stmt" and isinstance(m.ast, (ast.Assign, ast.AnnAssign)) and any(dotted(tg) == f"self.{attr.attr}" for tg in (m.ast.targets if isinstance(m.ast, ast.Assign) else [m.ast.target]))]
+        good = [m for m in stores if is_name(m.ast.value, loc.id)]
+        # every path from the entry (or from another store) to the assertion passes a `self.A = <local>` last
+        w = g.search([g.entry] + [m for m in stores if m not in good], lambda x: x is n, skip_node=lambda x: x in good)
+        if good and w is None:
+            out.append(n)
+    return out
 
 
 def _anc(n: ast.AST):
